@@ -70,6 +70,7 @@ type Scenario struct {
 	RFault   *simnet.ReadFault  `json:"rfault,omitempty"`
 	WFault   *simnet.WriteFault `json:"wfault,omitempty"`
 	Cut      int                `json:"cut,omitempty"`
+	Giant    *Giant             `json:"giant,omitempty"`
 	Input    []byte             `json:"input,omitempty"` // explicit bytes (corruption scenarios)
 	Mutation string             `json:"mutation,omitempty"`
 	Perm     []int              `json:"perm,omitempty"`     // map-entry permutation for reference-peer encodings
@@ -80,6 +81,16 @@ type Scenario struct {
 	Files    map[string]string  `json:"files,omitempty"`    // workspace content before the run (C19)
 	Args     []string           `json:"args,omitempty"`
 	Extra    map[string]string  `json:"extra,omitempty"`
+}
+
+// Giant turns the valid encoding of the scenario's value into a strict prefix of the valid
+// encoding of a GIANT value: the Which-th array/map count (among those whose elements have
+// a fixed wire size and that hold at least one element) becomes N, every enclosing body
+// length grows accordingly, and the cut stays inside the elements that are present. The
+// missing N-n elements (copies of the first) are never materialised.
+type Giant struct {
+	Which int `json:"which"`
+	N     int `json:"n"`
 }
 
 // TaskSpec is one concurrent caller of the library (C14).
